@@ -1,16 +1,25 @@
-"""c09 (shared Connection families)"""
+"""C09 - operations end in bounded time with a classified error; first cause wins."""
 
+from vf import connsim
 from vf.props import conn_common
 
 
 def run(ctx):
     ctx.rule = (
-        "TLC: all interleavings of user calls, device events, faults (<= 2) and task resumptions within the bounds "
-        "(action properties ForwardOnly, ClosedFinal; invariant ConnectedFlag); schedules: one per distinct quiescent model "
-        "state + random stories with faults; each executed on the real APIConnection, state sampled after EVERY loop "
-        "callback, traces validated by TLC; distinct = distinct schedule"
+        "TLC: ClassifiedErrors, ReleasedAtRest and the liveness formula EventuallySettled (<>[] no operation pending) under weak fairness of "
+        "the internal steps and of time on the connect slice; general families (a close cause / silence before every step with every gap, TLC "
+        "schedules, random stories): every operation outcome (class, virtual completion instant) is a validated trace row, idle rows require "
+        "the specification to have nothing left to run (hang detection), raw exceptions are attributed here; own family: duplicate / late / "
+        "early responses, silence until the time-out and every kind of close around request-response calls in all three call shapes; "
+        "distinct = distinct schedule"
     )
+
+    def build(ctx, rng):
+        return {"responses": connsim.c09_family(rng, ctx.quick)}
+
+    conn_common.dedicated(ctx, "c09", [("MC_Connection_live.cfg" if ctx.quick else "MC_Connection_live_deep.cfg", {"coverage": False})], build)
     conn_common.run_general_property(ctx)
+    ctx.assumptions.append("liveness is checked on the bounded connect slice only; on the real code 'never hangs' is the idle-row rule plus exact completion instants")
 
 
 def replay(ctx, case):
